@@ -302,6 +302,25 @@ fn handle(req: &Value) -> Value {
                 (x, y) => json!({"kind": "ok", "equal": false, "whole_ok": x.is_ok(), "parts_ok": y.is_ok()}),
             }
         }
+        "boolform" => {
+            // search('!(L)' / '(L) && (R)' / '(L) || (R)', d) vs the truth-table combination of search(L, d), search(R, d)
+            let mut rt = Runtime::new();
+            rt.register_builtin_functions();
+            let l = req["L"].as_str().unwrap(); let r = req["R"].as_str().unwrap(); let form = req["form"].as_str().unwrap();
+            let whole = match form { "not" => format!("!({})", l), "and" => format!("({}) && ({})", l, r), _ => format!("({}) || ({})", l, r) };
+            let d = to_var(&req["doc"]);
+            let a = rt.compile(&whole).and_then(|x| x.search(d.clone()));
+            let b = rt.compile(l).and_then(|x| x.search(d.clone())).and_then(|m| {
+                if form == "not" { Ok(Rcvar::new(Variable::Bool(!m.is_truthy()))) }
+                else if (form == "and") == m.is_truthy() { rt.compile(r).and_then(|x| x.search(d.clone())) }
+                else { Ok(m) }
+            });
+            match (a, b) {
+                (Ok(x), Ok(y)) => json!({"kind": "ok", "equal": format!("{:?}", x) == format!("{:?}", y), "whole": from_var(&x), "parts": from_var(&y)}),
+                (Err(x), Err(y)) => json!({"kind": "ok", "equal": reason_kind(&x.reason) == reason_kind(&y.reason)}),
+                (x, y) => json!({"kind": "ok", "equal": false, "whole_ok": x.is_ok(), "parts_ok": y.is_ok()}),
+            }
+        }
         "serde" => {
             // a value of the serde data model searched through the library vs its serde_json image
             let dm = DM(req["value"].clone());
